@@ -86,6 +86,21 @@ def blocks(c1, c2):
     ]
 
 
+def early_exits(c1, c2):
+    """blocks that leave the program: after `exit` nothing runs, and the branch not taken must still be the only
+    other one that can (the generator leaves out the jump over an Else block when nothing reaches it: F48 - a
+    seeded change made it forget the 32-bit jumps that do)"""
+    X = ("exit",)
+    return [
+        [("with", c1, [("mark", 1), X], [("mark", 2)]), ("mark", 3)],
+        [("with", c1, [("mark", 1), ("with", c2, [("mark", 2), X], None)], [("mark", 3)]), ("mark", 4)],
+        [("with", c1, [("with", c2, [("mark", 1), X], [("mark", 2), X])], [("mark", 3)]), ("mark", 4)],
+        [("with", c1, [("mark", 1)], [("mark", 2), X]), ("mark", 3)],
+        [("with", c1, [("mark", 1)], [("with", c2, [("mark", 2)], [("mark", 3), X])]), ("mark", 4)],
+        [("with", c1, [("mark", 1), X], None), ("mark", 2), ("with", c2, [X], [("mark", 3)]), ("mark", 4)],
+    ]
+
+
 def program_consts(stmts):
     out = set()
 
@@ -153,6 +168,14 @@ def run(ctx):
         else:
             progs_.append(blocks(a, a)[0])
             progs_.append(blocks(a, a)[1])
+    # early exits: every shape over pairs of atoms (inner conditions of every width and signedness)
+    for j in range(0, len(at) - 1, 5 if ctx.quick else 1):
+        sh = early_exits(at[j], at[(j * 7 + 3) % len(at)])
+        if ctx.quick:
+            progs_.append(sh[j % len(sh)])
+            progs_.append(sh[(j + 2) % len(sh)])
+        else:
+            progs_ += sh
     # condition shapes and block shapes over fixed-seed atom triples
     for _ in range(120 if ctx.quick else 1500):
         a, b, c = fixed.sample(at, 3)
